@@ -2,7 +2,7 @@
     harness on every dumped CFG) and the example CFGs.  Definitions only. *)
 From Coq Require Import List Bool Arith.
 From V.C09 Require Import Analysis.
-From V.C06 Require Import Linearity Token.
+From V.C06 Require Import Linearity Token TokenG.
 Import ListNotations.
 
 Definition kind_eqb (a b : kind) : bool :=
@@ -70,7 +70,8 @@ Definition io_okb (c : lcfg) : bool :=
 
 Definition hyps_code (c : lcfg) : list nat :=
   map (fun b : bool => if b then 1 else 0)
-      [uniformb c; wf_shapeb c; h_exitb c; all_reachedb c; events_wfb c; io_okb c; c_exit_reachable c].
+      [uniformb c; wf_shapeb c; h_exitb c; all_reachedb c; events_wfb c; io_okb c; c_exit_reachable c;
+       typedb c; edges_okb c; exit_row_okb c; wf_idxb c].
 
 (** * examples *)
 Definition lf (x : nat) (k : kind) : leaf := mkLeaf x k false.
@@ -121,3 +122,24 @@ Definition f1_blocks : list ablock :=
     mkAB [p_tree q_lin] [] [4];
     mkAB [p_tree q_lin] [SExpr (XCall [(false, false)] [XPlace q_lin]) true; SAssign [q_int] (XNode []); SReturn [XNode []]] [1] ].
 Definition f1_cfg : lcfg := mkLC (map flatten_block f1_blocks) 0 1 true [(0, false, p_tree q_lin); (1, false, p_tree p_c)].
+
+(* def g1(c: bool) -> None:  n = 1; m = n + 1; if c: k = n + 1; n = qubit(); discard(n)
+   ids: c = 0, n = 1, m = 2, k = 3.  0 entry -> 3 (else), 2 (then); 1 exit; 2: then; 3: empty; 4: return *)
+Definition n_int : place := var 1 KCopy.
+Definition n_lin : place := var 1 KLinear.
+Definition g1_blocks : list ablock :=
+  [ mkAB [p_tree (var 0 KCopy)]
+      [SAssign [n_int] (XNode []); SAssign [var 2 KCopy] (XNode [XPlace n_int]); SPred (XPlace (var 0 KCopy))] [3; 2];
+    mkAB [] [] [];
+    mkAB [p_tree n_int]
+      [SAssign [var 3 KCopy] (XNode [XPlace n_int]); SAssign [n_lin] (XCall [] []);
+       SExpr (XCall [(false, false)] [XPlace n_lin]) true] [4];
+    mkAB [] [] [4];
+    mkAB [] [SReturn []] [1] ].
+Definition g1_cfg : lcfg := mkLC (map flatten_block g1_blocks) 0 1 true [(0, false, p_tree (var 0 KCopy))].
+
+(* `if c: pass; q = 1; return 2` with q: qubit @owned never consumed: the re-binding overwrites it *)
+Definition f1bad_blocks : list ablock :=
+  firstn 4 f1_blocks ++ [mkAB [p_tree q_lin] [SAssign [q_int] (XNode []); SReturn [XNode []]] [1]].
+Definition f1bad_cfg : lcfg :=
+  mkLC (map flatten_block f1bad_blocks) 0 1 true [(0, false, p_tree q_lin); (1, false, p_tree p_c)].
